@@ -20,6 +20,7 @@ func init() {
 			"R10.2 also: the caller's parameters are read for the static merge only after the auth writer ran; R10.3 also: client.New stores the base path verbatim (at most a leading slash is added). " +
 			"R10.2 also: SetQueryParam leaves an entry under the name on every successful call (an empty override is still an override). " +
 			"R10.1 also: SetPathParam always records, and createHttpRequest neither replaces nor re-resolves the URL buildHTTP built. " +
+			"R10.1 also: each placeholder is substituted on every iteration (only its absence from the text excuses one) and SetPathParam records the value verbatim; R10.2 also: a static parameter is merged whenever the caller did not set its name. " +
 			"NOT decided: injectivity of escaping (url.PathEscape), value-level precedence outcomes.",
 		Run: runC10,
 	})
